@@ -546,6 +546,9 @@ fn recover(
         }
     }
 
+    // The replayed pages must be durable before the WAL, the only other copy of them, is dropped.
+    ht_fd.sync_all()?;
+
     // Finally, we collapse the WAL file and fsync.
     writeout::truncate_wal(wal_fd, true)?;
 
